@@ -630,3 +630,73 @@ def a_type_declared_at_run_time_on_one_source_is_still_undeclared_on_every_other
   return Case(run, [s1, s2, s3], raises={}, ensures={
     "only_the_source_that_declared_it_accepts_it": lambda res: res == ["accepted", "rejected", "rejected", "rejected", "rejected"],
   })
+
+
+# ---------------------------------------------------------------- a handler that halts through the event object keeps its say
+# (sixth round, 2026-09-25: a seeded change made Event._invoke answer EventHalt whenever the handler had set event.halt - the
+# handler's own return value, e.g. 'remove me', was lost: it stayed subscribed and was invoked again on the next raise)
+
+class HaltTrace(object):
+  pass
+
+
+def _mk_halting_handler(rv_kind):
+  def u(b):
+    src = b.new(Src)
+    tr = b.raw_new(HaltTrace, log=b.list([]))
+    rv = {"false": False, "remove_tuple": (False, True), "none": None}[rv_kind]
+    def first(event):
+      tr.log.append("first")
+      event.halt = True
+      return rv
+    def second(event):
+      tr.log.append("second")
+    def run(s):
+      s.addListener(Ev, first, priority=5)
+      s.addListener(Ev, second, priority=1)
+      e1 = s.raiseEvent(Ev())
+      after1 = [x for x in tr.log]
+      s.raiseEvent(Ev())
+      return (after1, [x for x in tr.log], [e[1] is first for e in s._eventMixin_handlers.get(Ev, [])], e1.halt)
+    removes = rv_kind in ("false", "remove_tuple")
+    halts = rv_kind != "none"       # (a handler that returns None is not looked at any further: the code's documented protocol)
+    return Case(run, [src], raises={}, ensures={
+      "the_first_delivery_stops_behind_the_halting_handler": lambda res: res[0] == (["first"] if halts else ["first", "second"]),
+      "a_handler_that_asked_to_be_removed_is_gone_for_the_next_event":
+        lambda res: res[2] == ([False] if removes else [True, False])
+        and res[1] == res[0] + (["second"] if removes else (["first"] if halts else ["first", "second"])),
+    })
+  u.__name__ = "a_handler_that_sets_halt_and_returns_%s" % rv_kind
+  u.bound = "two handlers, two events"
+  unit(P, target=RV + "Event._invoke / EventMixin.raiseEvent")(u)
+
+
+for _k in ("false", "remove_tuple", "none"):
+  _mk_halting_handler(_k)
+
+
+# ---------------------------------------------------------------- add_listener (the snake_case entry point) passes its flags on
+# (sixth round: a seeded change passed `weak` and `once` positionally in the wrong order)
+
+def _mk_add_listener_flags(by):
+  def u(b):
+    src = b.new(Src)
+    once = b.bool("once")
+    prio = b.int("priority", -5, 5)
+    cs = {"weakref:ReferenceType": WeakRefSpec()} if b.mode == "sym" else {}
+    def run(s):
+      if by == "type":
+        r = s.add_listener(hnew, event_type=Ev, once=once, priority=prio)
+      else:
+        r = s.add_listener(hnew, event_name="Ev", once=once, priority=prio)
+      return (r[0] is Ev, view(s))
+    return Case(run, [src], calls=cs, raises={}, ensures={
+      "subscribed_strongly_with_the_given_one_shot_flag_and_priority": lambda res: res[0] and res[1] == [(prio, hnew, once)],
+    })
+  u.__name__ = "add_listener_by_%s_passes_its_flags_on" % by
+  u.bound = BOUND
+  unit(P, target=RV + "EventMixin.add_listener")(u)
+
+
+for _by in ("type", "name"):
+  _mk_add_listener_flags(_by)
